@@ -266,6 +266,7 @@ def run(p, report, tier):
     sub = c01.Report_proxy(report, {"R1.4m": "R2.3", "R1.6": "R2.3", "R1.4c": "R2.3"})
     c01.check_exclusion_mechanisms(p, sub, funcs, facts)
     c01.check_carried_exclusion(p, sub, funcs, facts)
+    c01.check_nan_reductions(p, report, funcs, "R1.3")
     from . import c08
     c08.check_shrinking_pool(p, sub, funcs, "R1.6")
     check_zero_mask_preserved(p, report, funcs, facts)
